@@ -1266,6 +1266,19 @@ class Interp:
                 return [(st, (a is b) != neg, None)]
             # canonical atom
             ka, kb = sorted([self._opkey(na), self._opkey(nb)])
+            singleton = lambda x: isinstance(x, Const) and (x.v is None or isinstance(x.v, bool))
+            if isinstance(op, (ast.Is, ast.IsNot)) and not singleton(a) and not singleton(b):
+                # identity of non-singletons: identical implies equal, but not identical says nothing about equality
+                # (a caller may pass an equal str for a str-enum member)
+                ikey, ekey = f"is({ka},{kb})", f"eq({ka},{kb})"
+                res = []
+                if st.facts.get(ekey) is False:
+                    return [(st, neg, None)]
+                for s2, t, o in self.fork_atom(ikey, st, e):
+                    if t:
+                        s2.facts[ekey] = True
+                    res.append((s2, t != neg, o))
+                return res
             res = []
             for s2, t, o in self.fork_atom(f"eq({ka},{kb})", st, e):
                 res.append((s2, t != neg, o))
